@@ -1839,7 +1839,7 @@ impl TypeChecker {
             old(self).valid(a), old(self).valid(b), //# C07 union.pre.ids_in_range
             shape_eq(ty_of(old(self).types@, a), ty_of(old(self).types@, b)), //# C02,C03 union.pre.the_two_classes_have_types_of_one_shape
         ensures
-            final(self).inv(), //# C02 union.keeps_invariant
+            final(self).inv(), //# C02,C07 union.keeps_invariant
             final(self).types.len() == old(self).types.len(), //# C07 union.spec.aux1
             forall|i: int| 0 <= i < old(self).types.len() ==> (#[trigger] final(self).types@[i]).ty == old(self).types@[i].ty, //# C02 union.types_untouched
             exists|w: int| #[trigger] merged_into(old(self).types@, final(self).types@, rep0(old(self).types@, a.0 as int), rep0(old(self).types@, b.0 as int), w), //# C02,C03 union.partition_merges_exactly_two_classes
@@ -1859,8 +1859,8 @@ impl TypeChecker {
         let ghost a0 = a; let ghost b0 = b;
         proof { axiom_constraint_key_order(); lemma_same_graph_refl(ts0); lemma_rep0_props(ts0, a0.0 as int); lemma_rep0_props(ts0, b0.0 as int); }
 //@   endghost
-//@   ghost before
-//@|         if a == b {
+//@   ghost after
+//@|         let TyID(b) = self.find(b);
         let ghost ts2 = self.types@;
         let ghost ra = a; let ghost rb = b;
         proof {
